@@ -4,7 +4,10 @@
    Binding (B1 replay + TLC trace validation): every configuration TLC enumerates is built by the real
    NewSubsetLoadBalancer and NewSubsetLoadBalancerPreIndex (through simpleCluster.UpdateHosts), asked HostNum /
    IsExistsHosts / ChooseHost for every criteria map of the universe, under health patterns and host orders;
-   SubsetTrace.tla evaluates the declarative expectation on every recorded answer."""
+   SubsetTrace.tla evaluates the declarative expectation on every recorded answer.
+   spec/cluster/SubsetRoute.tla: the criteria of a request = route metadata_match overridden by the request's own
+   metadata, a pure function of (route, request); histories of requests on one route are replayed on real route rules
+   through the proxy's downStream.MetadataMatchCriteria and as real requests through an in-process MOSN."""
 import json, os, random, re, threading
 import vlib
 
@@ -14,7 +17,7 @@ DEFECTS = ("Subset_defect1.cfg", "Subset_defect2.cfg", "Subset_defect3.cfg", "Su
 
 def mismatches(txt):
     out = {}
-    for m in re.finditer(r'<<"MISMATCH", (\d+), "([^"]+)">>', txt):
+    for m in re.finditer(r'<<\s*"MISMATCH",\s*(\d+),\s*"([^"]+)"\s*>>', txt):
         out.setdefault(int(m.group(1)), set()).add(m.group(2))
     return out
 
@@ -96,6 +99,71 @@ def wide_pick(cfgs, rng, nwide, nrest):
     sa = set(a)
     b = [c for c in cfgs if c not in sa]
     return rng.sample(a, min(nwide, len(a))) + rng.sample(b, min(nrest, len(b)))
+
+
+def rq_class(evs, lb_line, line):
+    """Input class of a request event: which merge case its criteria are, and whether an earlier request of the same
+    route (same history for the direct replay, same route of the running MOSN) carried request-level metadata."""
+    e = evs[line - 1]
+    rm, q = e.get("rm", []), e.get("q", [])
+    if not rm and not q:
+        case = "no-criteria"
+    elif not q:
+        case = "route-only"
+    elif not q[0]:
+        case = "empty-request-map"
+    elif not rm:
+        case = "request-only"
+    elif set(rm[0]) & set(q[0]):
+        case = "both-same-key"
+    else:
+        case = "both-disjoint-keys"
+    earlier = False
+    if e.get("e2e"):
+        for j in range(line - 1, lb_line, -1):
+            p = evs[j - 1]
+            if p["ev"] == "rq" and p.get("route") == e.get("route") and p.get("q"):
+                earlier = True
+                break
+    else:
+        for j in range(line - 1, max(lb_line, line - e.get("i", 1)), -1):
+            if evs[j - 1].get("q"):
+                earlier = True
+                break
+    return "merge-%s:%s" % (case, "after-request-with-metadata" if earlier else "route-not-yet-used-with-metadata")
+
+
+def route_cases(ctx, q, rng):
+    """Histories of requests on one route (SubsetRoute.tla): model check = case generation; defect switch rejected."""
+    cfg = "SubsetRoute.cfg" if q else "SubsetRoute_thorough.cfg"
+    raw = os.path.join(ctx.tmp, "raw_%s.jsonl" % cfg)
+    r = vlib.run_tlc(ctx, "cluster", "SubsetRoute", cfg, workers=1, cases_to=raw, timeout=900)
+    ctx.add_tlc(r)
+    if vlib.run_tlc(ctx, "cluster", "SubsetRoute", "SubsetRoute_defect.cfg", workers=1, expect_ok=False)["ok"]:
+        raise vlib.Inconclusive("SubsetRoute model does not reject RouteCriteriaMutatedByRequest: invariants vacuous")
+    menu, hist = None, []
+    for ln in open(raw):
+        ln = ln.strip()
+        if ln.startswith('{"t":"menu"'):
+            menu = ln
+        elif ln.startswith('{"t":"hist"'):
+            hist.append(ln)
+    if menu is None or not hist:
+        raise vlib.Inconclusive("no cases from %s" % cfg)
+    hist.sort()
+    # through MOSN: a VERIF_SEED sample (header_to_metadata cannot publish an empty map: those stay direct only)
+    expressible = [h for h in hist if "[[]]" not in h.split('"reqs":')[1]]
+    n = 240 if q else 3000
+    through = []
+    for h in rng.sample(expressible, min(n, len(expressible))):
+        d = json.loads(h)
+        d["e2e"] = True
+        through.append(json.dumps(d, separators=(",", ":")))
+    p = os.path.join(ctx.tmp, "cases_route.jsonl")
+    with open(p, "w") as fh:
+        fh.write(menu + "\n" + "\n".join(hist) + "\n" + "\n".join(through) + "\n")
+    ctx.cov.setdefault("configs", {})[cfg] = {"histories": len(hist), "replayed_direct": len(hist), "replayed_through_mosn": len(through)}
+    return p, len(hist)
 
 
 def gen_cases(ctx, cfg, timeout=900):
@@ -243,21 +311,25 @@ def replay(ctx, q, rng, par, universes):
         total_cfgs += len(pick)
         ctx.cov.setdefault("configs", {})[cc] = {"enumerated": len(cfgs), "replayed": len(pick),
                                                  "criteria": len(json.loads(crits)["crits"])}
-        jobs.append((cc, p))
+        jobs.append((cc, p, "lb"))
+    rp, nhist = route_cases(ctx, q, rng)
+    jobs.append(("SubsetRoute", rp, "route"))
 
     # ---------- 3. real code: record
     binary = vlib.go_build("c15")
     reps = "8" if q else "24"
-    for name, cases in jobs:
+    for name, cases, mode in jobs:
         trace = os.path.join(ctx.tmp, name + ".ndjson")
-        vlib.run_driver(ctx, binary, ["-cases", cases, "-trace", trace, "-reps", reps,
+        vlib.run_driver(ctx, binary, ["-mode", mode, "-cases", cases, "-trace", trace, "-reps", reps,
                                       "-health", "1" if q else "7", "-full=false" if q else "-full=true"], timeout=1700)
         # ---------- 4. TLC decides
         nlines = sum(1 for _ in open(trace))
         evs, parts = validate_parallel(ctx, trace, max(1, min(par if q else par * 2, nlines // 60000)))
         nq = sum(1 for e in evs if e["ev"] == "q")
         ctx.cov["traces_validated_against_impl"] += sum(1 for e in evs if e["ev"] == "lb")
-        ctx.cov["evaluations"] += nq * 3
+        ctx.cov["evaluations"] += nq * 3 + sum(1 if e.get("e2e") else 4 for e in evs if e["ev"] == "rq")
+        if mode == "route":
+            ctx.cov["requests_through_mosn"] = sum(1 for e in evs if e.get("e2e"))
         ctx.cov.setdefault("trace_events", {})[name] = len(evs)
         lb_at = {}
         cur = None
@@ -275,6 +347,8 @@ def replay(ctx, q, rng, par, universes):
                 cls = crit_class(lb, e, width=not kind.startswith("subset-all-unhealthy"))
             elif e["ev"] == "lb":
                 cls = "selector-without-keys" if any(len(x) == 0 for x in e["sel"]) else "build"
+            elif e["ev"] == "rq":
+                cls = rq_class(evs, lb_at[line], line)
             else:
                 cls = e["ev"]
             sig = "C15:%s:%s:%s" % (lb.get("b"), cls, kind)
@@ -283,7 +357,11 @@ def replay(ctx, q, rng, par, universes):
                 if evs[j - 1]["ev"] == "health":
                     hl = evs[j - 1]["hl"]
                     break
-            vlib.report_failure(ctx, sig, dict(line=line, config=lb, healthy=hl if hl is not None else "all", query=e))
+            detail = dict(line=line, config=lb, healthy=hl if hl is not None else "all", query=e)
+            if e["ev"] == "rq":   # the requests of the same route that came before
+                detail["earlier_requests"] = [x for x in evs[max(lb_at[line], line - 12):line - 1]
+                                              if x["ev"] == "rq" and x.get("route") == e.get("route")][-6:]
+            vlib.report_failure(ctx, sig, detail)
 
         for off, n, v in parts:
             ctx.cov["states"] += v["distinct"]
@@ -298,18 +376,25 @@ def replay(ctx, q, rng, par, universes):
                 line = off + v["matched"] + 1
                 fail(line, "trace-rejected:" + evs[line - 1]["ev"])
 
-    ctx.cov["distinct_nontrivial"] = total_cfgs
+    ctx.cov["distinct_nontrivial"] = total_cfgs + nhist
     ctx.cov["rule"] = ("every configuration TLC enumerates from Subset.tla (host multisets with partial metadata x selector sets x "
                        "fallback policy x default subset) is built by both real builders through UpdateHosts (pre-index also with "
                        "hosts/selectors reversed); each balancer answers HostNum, IsExistsHosts and %s+ ChooseHost calls for every "
                        "criteria map of the universe (known/unknown keys and values, empty string, empty map, nil, typed nil), "
                        "again under health patterns; quick: all configurations with <=2 hosts, VERIF_SEED sample of the rest; "
-                       "distinct = configurations replayed, evaluations = recorded answers checked by TLC" % reps)
+                       "request criteria: every history of %d requests on one route TLC enumerates from SubsetRoute.tla (6 configurations "
+                       "x 9 route metadata_match x 12 request metadata each) replayed on a fresh real route rule through the real "
+                       "header_to_metadata filter and the proxy's downStream.MetadataMatchCriteria into both builders' balancers, and a "
+                       "VERIF_SEED sample of them as HTTP/1 requests through an in-process MOSN (answering host recorded); "
+                       "distinct = configurations + histories replayed, evaluations = recorded answers checked by TLC"
+                       % (reps, 2 if q else 3))
     ctx.cov["exhaustive"] = not sampled
     ctx.assumptions += [
         "health: the inner balancer of a host set may answer any healthy member, or, when none is healthy, any member or "
         "nothing (C05 contract); the selected subset decides alone, also when all its members are unhealthy",
-        "criteria are built by router.NewMetadataMatchCriteriaImpl (sorted by key), as proxy/downstream.go does",
+        "balancer part: criteria are built by router.NewMetadataMatchCriteriaImpl (sorted by key); request part: by the proxy's "
+        "own downStream.MetadataMatchCriteria (accessor VerifLoadBalancerContext) resp. by a real request through MOSN",
+        "request-level metadata comes from the header_to_metadata stream filter (header x-<key> -> metadata <key>); all hosts healthy there",
         "host addresses are distinct (HostSet de-duplicates by address); every selector has at least one key",
         "the inner policy rotates over the 8 balancer types by configuration index and VERIF_SEED; maglev gets a route with a hash policy",
     ]
